@@ -22,7 +22,7 @@ try:
     am=json.load(open(agentmeta))
 except Exception:
     am={}
-meta={"seed":name,"breaks_property":prop,"description":am.get("description",""),"why_tests_miss":am.get("why_tests_miss",""),
+meta={"seed":name,"breaks_property":prop,"description":am.get("description",""),"needs_to_manifest":am.get("needs",""),"why_tests_miss":am.get("why_tests_miss",""),
  "tests_with_change":tests,"failed_tests_with_change":failed,
  "demo_exit_unmodified":int(brc),"demo_exit_with_change":int(mrc),"demo_output_with_change":mdemo,
  "confirmed": ("2477 passed" in tests and "2 failed" in tests and int(brc)==0 and int(mrc)!=0),
